@@ -832,6 +832,11 @@ def statement_pool(seed):
         # rows of classes that are never declared (types guessed from the first row of the class), booleans in mixed case
         'INSERT INTO %s (x, f) VALUES (1, True);' % Z,
         "INSERT INTO %s VALUES (fAlSe, 'a');" % p['Y'],
+        # a class declared without attributes, as either end of an association and as the class of a row / an identifier
+        'CREATE TABLE %s ();' % p['E'],
+        'CREATE ROP REF_ID R5 FROM MC %s (x) TO 1 %s (y);' % (A, p['E']),
+        'CREATE ROP REF_ID R6 FROM 1C %s (q) TO 1C %s (y);' % (p['E'], B),
+        'INSERT INTO %s VALUES (); CREATE UNIQUE INDEX I3 ON %s (x);' % (p['E'], p['E']),
     ]
 
 
